@@ -98,10 +98,31 @@ func TestVerifC09(t *testing.T) {
 		pre := 0
 		nontrivial := false
 		var fail, tag string
+		// content model, independent of what the log reports: the timestamp of every appended message
+		// (`append <epoch> <ts> m0 m1 …` stamps ts, ts+1, …); a segment's age is the age of its newest
+		// message, whatever the segment object remembers (e.g. after a reopen)
+		tsOf := map[int64]int64{}
+		own := func(segs []vSegInfo) []vSegInfo {
+			for k := range segs {
+				if t, ok := tsOf[segs[k].last]; ok && segs[k].count > 0 {
+					segs[k].lastTs = t
+				}
+			}
+			return segs
+		}
 		for i, op := range prog {
+			if f := strings.Fields(op); f[0] == "append" && strings.HasPrefix(impl[i], "ok [") {
+				ts, _ := strconv.ParseInt(f[2], 10, 64)
+				lst := impl[i][4:strings.Index(impl[i], "]")]
+				for k, o := range strings.Split(lst, ",") {
+					if off, err := strconv.ParseInt(o, 10, 64); err == nil {
+						tsOf[off] = ts + int64(k)
+					}
+				}
+			}
 			if strings.HasPrefix(op, "clean ") {
 				ttl, _ := strconv.ParseInt(strings.Fields(op)[1], 10, 64)
-				a, b := vParseSegs(impl[pre]), vParseSegs(impl[i])
+				a, b := own(vParseSegs(impl[pre])), own(vParseSegs(impl[i]))
 				if len(a) >= 2 && (lim[0] > 0 || lim[1] > 0 || lim[2] > 0) {
 					nontrivial = true
 				}
